@@ -247,7 +247,7 @@ fn build_struct_json_body(struct_def: &StructDef, attr_ptr: &MySyntaxNodePtr) ->
         });
         // field value as JSON
         parts.push(call_to_json(
-            var_expr(field_name, attr_ptr),
+            var_expr(&field_local(field_name), attr_ptr),
             Some(field_ty),
             attr_ptr,
         ));
@@ -271,7 +271,7 @@ fn build_struct_json_body(struct_def: &StructDef, attr_ptr: &MySyntaxNodePtr) ->
                             (
                                 field_name.clone(),
                                 Pat::PVar {
-                                    name: field_name.clone(),
+                                    name: field_local(field_name),
                                     astptr: *attr_ptr,
                                 },
                             )
@@ -383,7 +383,7 @@ fn build_struct_body(struct_def: &StructDef, attr_ptr: &MySyntaxNodePtr) -> Expr
             astptr: *attr_ptr,
         });
         parts.push(call_to_string(
-            var_expr(field_name, attr_ptr),
+            var_expr(&field_local(field_name), attr_ptr),
             Some(field_ty),
             attr_ptr,
         ));
@@ -413,7 +413,7 @@ fn build_struct_body(struct_def: &StructDef, attr_ptr: &MySyntaxNodePtr) -> Expr
                             (
                                 field_name.clone(),
                                 Pat::PVar {
-                                    name: field_name.clone(),
+                                    name: field_local(field_name),
                                     astptr: *attr_ptr,
                                 },
                             )
@@ -599,6 +599,12 @@ fn call_function(name: &str, args: Vec<Expr>, attr_ptr: &MySyntaxNodePtr) -> Exp
         args,
         astptr: *attr_ptr,
     }
+}
+
+/// The local a derived body binds a field to: spelled so that it is neither a runtime helper the body calls
+/// (`int32_to_string`), nor a constructor of the package, whatever the field is called.
+fn field_local(field_name: &AstIdent) -> AstIdent {
+    AstIdent::new(&format!("__self_{}", field_name.0))
 }
 
 fn var_expr(name: &AstIdent, attr_ptr: &MySyntaxNodePtr) -> Expr {
